@@ -44,6 +44,7 @@ func main() {
 	runBuildMatrix()
 	runConfigProduct()
 	runSpecialParity()
+	runConflictingLevelHint()
 	runAutoMask()
 	runPenaltyRules()
 	runCharacterSweeps()
